@@ -762,8 +762,20 @@ func SolveAll(obls []*Obligation, timeoutMs int, need int) {
 func (eng *Engine) LemmaObligations(reports []*UnitReport, prop string) []*Obligation {
 	seen := map[string]bool{}
 	var out []*Obligation
+	// lemmas used by the units, then the composition lemmas declared for this property (lemma [Cxx] ...)
+	var names []string
 	for _, r := range reports {
-		for _, ln := range r.Lemmas {
+		names = append(names, r.Lemmas...)
+	}
+	for _, ln := range sortedKeys(eng.Lemmas) {
+		for _, p := range eng.Lemmas[ln].Props {
+			if p == prop {
+				names = append(names, ln)
+			}
+		}
+	}
+	{
+		for _, ln := range names {
 			if seen[ln] {
 				continue
 			}
